@@ -6,6 +6,7 @@ Driver for the live-state model (C07, C08, C09).  Text fields travel as hex (`-`
   circ <quit lid,lid|-> <hexarg> …            strm <quit> <ans|later|-> <hexarg> …
   acl <lid> | asl <lid> | lc <coid> <lid> | uc <coid> <lid> | ls <soid> <lid> | us <soid> <lid>
   wb <coid> | wc <coid> | cc <coid> | cs <soid> | ack <0|1> | att <n|-> | ans <tok> <ans> | via <coid> <hexaddr> <port>
+  vialost <hexaddr> <port>
   dump
 ans: n (None) | d (DO_NOT_ATTACH) | c<coid> | x (not a circuit) | r (raises)
 -/
@@ -82,6 +83,7 @@ def step (s : St) (line : String) : St × String :=
   | ["att", a] => if a = "-" then run1 s (.setAttacher none) else match a.toNat? with | some n => run1 s (.setAttacher (some n)) | none => (s, "bad-op")
   | ["ans", t, a] => match t.toNat?, decAns a with | some t, some a => run1 s (.answer t a) | _, _ => (s, "bad-op")
   | ["via", o, a, p] => match o.toNat?, Hex.decodeText a, p.toNat? with | some o, some a, some p => run1 s (.via o a p) | _, _, _ => (s, "bad-op")
+  | ["vialost", a, p] => match Hex.decodeText a, p.toNat? with | some a, some p => run1 s (.viaLost a p) | _, _ => (s, "bad-op")
   | ["dump"] => (s, dump s)
   | _ => (s, "bad-op")
 
